@@ -119,6 +119,14 @@ func (ds *DataSchema) target(r *rand.Rand, s *refavro.Schema, o TargetOpts, unde
 		if nonNull < 0 {
 			return &T{K: KPtr, Elem: &T{K: KInt}}
 		}
+		if len(s.Branches) > 64 {
+			// wide union of named fixed types of one size
+			t = &T{K: KArray, N: s.Branches[0].Size, Elem: &T{K: KUint8}}
+			if r.IntN(3) == 0 {
+				t = &T{K: KPtr, Elem: t}
+			}
+			return t
+		}
 		if len(s.Branches) > 2 || (len(s.Branches) == 2 && nulls == 0) {
 			// multi-branch of integer branches: one integer target for all
 			bits := 16
@@ -161,6 +169,9 @@ func (ds *DataSchema) target(r *rand.Rand, s *refavro.Schema, o TargetOpts, unde
 	default:
 		panic("target: " + s.Type)
 	}
+	if _, canName := namedScalars[t.K]; canName && !o.Canonical && r.IntN(8) == 0 {
+		t.Named = true // a defined type of the same kind
+	}
 	if !underUnion && !o.Canonical && r.IntN(10) == 0 && s.Type != "record" {
 		// extra pointer level on a non-nullable schema
 		return &T{K: KPtr, Elem: t}
@@ -197,11 +208,33 @@ func Project(r *rand.Rand, t *T, mode int) *T {
 		case 4: // permutation
 			r.Shuffle(len(fields), func(i, j int) { fields[i], fields[j] = fields[j], fields[i] })
 		case 5: // additions only
+		case 6: // delete a subset and embed a struct whose promoted fields carry the deleted names
+			var keep, gone []*F
+			for _, f := range fields {
+				if r.IntN(2) == 0 {
+					keep = append(keep, f)
+				} else {
+					gone = append(gone, f)
+				}
+			}
+			fields = keep
+			if len(gone) > 0 {
+				emb := &T{K: KStruct}
+				for i, f := range gone {
+					emb.Fields = append(emb.Fields, &F{Go: fmt.Sprintf("E%d", i), JSON: f.JSON, T: f.T})
+				}
+				at := r.IntN(len(fields) + 1)
+				fields = append(fields[:at:at], append([]*F{{Go: "Emb", Embedded: true, T: emb}}, fields[at:]...)...)
+			}
 		}
 		for i, f := range fields {
 			sub := mode
 			if mode != 4 && mode != 5 && r.IntN(2) == 0 {
 				sub = 5 // do not always compound deletions below
+			}
+			if f.Embedded {
+				n.Fields = append(n.Fields, f)
+				continue
 			}
 			n.Fields = append(n.Fields, &F{Go: fmt.Sprintf("P%d", i), JSON: f.JSON, T: Project(r, f.T, sub)})
 		}
@@ -215,7 +248,9 @@ func Project(r *rand.Rand, t *T, mode int) *T {
 		}
 		// Go field names must be unique
 		for i, f := range n.Fields {
-			f.Go = fmt.Sprintf("Q%d", i)
+			if !f.Embedded {
+				f.Go = fmt.Sprintf("Q%d", i)
+			}
 		}
 		return n
 	case KSlice, KMap, KPtr:
